@@ -145,6 +145,7 @@ class History:
         strat = detsched.RandomStrategy(random.Random(self.rng.random())) if schedule_ is None else detsched.Replay(schedule_)
         ctl = detsched.Controller(strat, max_steps=4000)
         ctl.clock = self.clock
+        ctl.mono_origin = self.clock        # (the monotonic clocks restart with every run: another process, maybe another boot)
         result = {}
 
         def master():
@@ -529,3 +530,6 @@ def run_c04(ctx):
     smp = groups[4][0]
     ctx.sample(dict(cfg=smp['cfg'], events=[e if e['type'] not in ('start', 'end') else dict(type=e['type'], st=[x['st'] for x in e['env']])
                                             for e in smp['events']]))
+    # behaviour beyond the listed property (DESIGN 10.6): the configuration objects the runs are given
+    import conf_config
+    ctx.extra('Config', conf_config.run, tlc.workdir('c04config'))
